@@ -22,6 +22,7 @@ type Options struct {
 	NoIfConv       bool     `json:"no_ifconv"`
 	ModeB          bool     `json:"mode_b"`
 	FixedHdr       bool     `json:"fixed_hdr"`
+	HdrLen         int      `json:"hdr_len"` // mode A: every thrift blob has this many bytes (long headers / footers)
 	PoolStale      int      `json:"pool_stale"`
 	MonitorPool    bool     `json:"monitor_pool"`
 	MonitorGlobals bool     `json:"monitor_globals"`
